@@ -172,6 +172,26 @@ def check(ctx: Ctx, col: Collector, tier: str) -> None:
     (col.ok if napp >= 2 and not probs else col.bad)("C15.AST-FILTER", f"{GETAPI}::_get_mypy_asts::appends", repo.loc(GETAPI, node),
                                                      f"{napp} appends, each under `path in files` / `path in package_paths`" if not probs else "; ".join(sorted(set(probs))),
                                                      *([] if napp >= 2 and not probs else [(sorted(set(probs)) or ["fewer than two guarded appends"])[0]]))
+    # every place that decides "this file is the __init__.py of a package" uses a name-exact test (the discovery loop of get_api compares the last
+    # path part with "__init__.py"); a suffix test also matches test__init__.py / my__init__.py
+    from ..core.ctx import VISITOR as _VIS
+    nsite = 0
+    for rel2, q2, effect in ((GETAPI, "_get_mypy_asts", "is looked up as a package directory that was never registered and appears in no output, with or without the test-run flag"),
+                             (_VIS, "MyPyAstVisitor.enter_moduledef", "is recorded as a module named __init__, its imports are taken for re-exports of a package and no stub is generated for it")):
+        f2 = repo.function(rel2, q2)
+        col.touched(f2)
+        suffix_tests = [n for n in ast.walk(f2.node) if isinstance(n, ast.Call) and isinstance(n.func, ast.Attribute) and n.func.attr == "endswith" and n.args
+                        and isinstance(n.args[0], ast.Constant) and n.args[0].value in ("__init__.py", "__init__")]
+        exact = [n for n in ast.walk(f2.node) if (isinstance(n, ast.Compare) and len(n.ops) == 1 and isinstance(n.ops[0], ast.Eq) and any(isinstance(x, ast.Constant) and x.value == "__init__.py" for x in [n.left, *n.comparators]))
+                 or (isinstance(n, ast.Call) and isinstance(n.func, ast.Attribute) and n.func.attr == "is_package_init_file")]
+        if not (suffix_tests or exact):
+            raise AnalysisError(f"{q2} no longer tests for __init__.py files; re-triage C15.AST-FILTER")
+        nsite += 1
+        good_init = not suffix_tests
+        (col.ok if good_init else col.bad)("C15.AST-FILTER", f"{rel2}::{q2}::init-file-test-exact", repo.loc(rel2, (suffix_tests or exact)[0]),
+                                           "package files are recognised by their exact file name" if good_init else f"`{ast.unparse(suffix_tests[0])}`",
+                                           *([] if good_init else [f"{q2} takes every file whose name *ends* in __init__.py for the __init__ module of a package, while the discovery loop of get_api "
+                                                                   f"compares the whole file name: `pkg/tests/test__init__.py` (or `my__init__.py`) is registered as a module file and then {effect}"]))
     # the caller passes exactly the filtered lists
     call = [n for n in ast.walk(fi.node) if isinstance(n, ast.Call) and getattr(n.func, "id", "") == "_get_mypy_asts"]
     good = False
